@@ -106,6 +106,18 @@ class _Answered:
         return self.returned
 
 
+class _InPlace:
+    """An in-process signer (a `SignerDecorator`, a plug-in) that writes its answer INTO the psbt it was handed and hands
+    that same object back: what it was given is the caller's request only if the caller passed its own object along."""
+
+    def __init__(self, becomes: Psbt) -> None:
+        self.becomes = becomes
+
+    def sign_psbt(self, psbt: Psbt) -> Psbt:
+        vars(psbt).update(vars(deepcopy(self.becomes)))
+        return psbt
+
+
 def _wire(x: Any) -> Any:
     """The serialization, or why there is none: compared before and after somebody else was written into."""
     try:
@@ -468,6 +480,17 @@ def _answer(ctx: Ctx, cer: gw.Ceremony, request: Psbt, answers: list[Psbt], faul
             except Exception as e:  # noqa: BLE001
                 verdict = f"non-library {type(e).__name__}: {e}"
             ctx.check(P, "tampered-answer-refused", verdict.startswith("refused"), lambda: f"{door}: an answer with {name} edited (v{asked.version}, {[s.wallet.shape for s in cer.inputs]}) was {verdict}", site=f"answer/{name}")
+        if ch.chance(1, 3, "answer.in-place?"):
+            # the same dishonest answer from a signer that lives in the caller's process and writes into what it is handed
+            mine = Psbt.parse(before)
+            try:
+                request_signatures(_InPlace(received), mine)  # type: ignore[arg-type]
+                verdict = "accepted"
+            except LIB as e:
+                verdict = f"refused {type(e).__name__}"
+            ctx.fault(f"byzantine-in-place-{name}")
+            ctx.check(P, "tampered-answer-refused", verdict.startswith("refused"), lambda: f"request_signatures: an answer with {name} edited, written into the very object the signer was handed, was {verdict}", site="answer/in-place")
+            ctx.check(P, "operand-untouched", mine.serialize() == before, lambda: f"request_signatures left the request it was handed changed by its signer ({name})", site="request_signatures/in-place")
         ctx.check(P, "request-untouched-by-refusal", asked.serialize() == before, f"the request changed while an answer with {name} edited was refused", site=f"answer/{name}")
 
 
